@@ -761,8 +761,13 @@ def check_pipeline(spec: dict) -> dict:
         entries.extend(ENTRY_CLASSES["other_file"] + ENTRY_CLASSES["region_gbk"])
     if state == "input_only":
         entries.extend(ENTRY_CLASSES["input_dir"])
+    log_inside = spec.get("logfile") == "in" and state != "absent"
+    if log_inside:
+        # the log of an earlier run lies in the output directory and this run logs to the same file
+        entries.extend(ENTRY_CLASSES["logfile"])
     dspec = {"mode": mode, "outdir": "given", "exists": "absent" if state == "absent" else "dir",
-             "entries": entries, "logfile": "out:run.log" if spec.get("logfile") else None, "cwd": None}
+             "entries": entries, "cwd": None,
+             "logfile": "in:antismash.log" if log_inside else ("out:run.log" if spec.get("logfile") else None)}
     fault = spec.get("fault")
     wspec = {"target": "write_to_file", "R": spec["R"], "M": spec["M"], "rich": False,
              "faults": [fault] if fault else []}
@@ -839,6 +844,15 @@ def check_pipeline(spec: dict) -> dict:
         detail = {"views": views, "raised": _describe(raised) if raised else None, "returned": returned,
                   "diff": diff, "calls": list(calls)}
         reported = raised is not None or (returned not in (0, None))
+        if log_inside and (must_refuse or fault):
+            # a run that refuses the directory or fails leaves what the earlier run logged in place (it may add to it)
+            earlier = ENTRY_CLASSES["logfile"][0]["d"].encode("utf-8")
+            now_log = b""
+            if os.path.isfile(paths["logfile"]):
+                with open(paths["logfile"], "rb") as handle:
+                    now_log = handle.read()
+            if not now_log.startswith(earlier):
+                raise Violation("pipeline_earlier_log_lost", dict(detail, log_now=now_log[:80].decode("utf-8", "replace")))
         if must_refuse:
             if not reported:
                 raise Violation("pipeline_not_refused", detail)
@@ -868,7 +882,7 @@ def check_pipeline(spec: dict) -> dict:
         finally:
             shutil.rmtree(scratch, ignore_errors=True)
     classes = [mode, f"state_{state}", "refusal" if must_refuse else ("fault" if fault else "control"),
-               "logfile" if spec.get("logfile") else "no_logfile"]
+               ("logfile_in_output_dir" if spec.get("logfile") == "in" else "logfile") if spec.get("logfile") else "no_logfile"]
     if fault:
         classes.append(f"kind_{fault['kind']}")
     if "write_outputs" in calls and (fault or must_refuse):
@@ -885,7 +899,7 @@ def enum_pipeline(max_r: int, max_m: int):
             for state in ("absent", "empty", "input_only", "prev_json", "foreign"):
                 if mode == "reuse_inside" and state in ("absent", "empty", "input_only"):
                     continue            # the reused json lives in the directory
-                for logfile in (False, True):
+                for logfile in (False, True, "in"):
                     for R in range(1, max_r + 1):
                         for M in range(1, max_m + 1):
                             base = {"mode": mode, "state": state, "R": R, "M": M, "logfile": logfile}
